@@ -22,6 +22,8 @@ type Config struct {
 	SelfReference          bool // optional field of the struct's own type
 	ForwardRefs            bool // fields may reference structs declared later in the file
 
+	ShadowNames bool // every typedef that can reuses the name of an included file's typedef (same core constructs, higher density)
+
 	// Stress classes (legal but unusual); each sets a feature tag when used.
 	AllCapsSnakeTypeNames    bool // struct / service / enum names like NECTAR_RAVEN
 	ThrowsSameTypeTwice      bool // throws (1: E a, 2: E b)
@@ -310,7 +312,11 @@ func (g *gen) genFile(f *File, root bool) {
 		add(&Decl{Enum: e})
 	}
 	// a few typedefs of base / container / enum types
-	for i, n := 0, g.rng.Intn(3); i < n; i++ {
+	ntd := g.rng.Intn(3)
+	if cfg.ShadowNames {
+		ntd = 2 + g.rng.Intn(3)
+	}
+	for i, n := 0, ntd; i < n; i++ {
 		if td := g.genTypeDef(); td != nil {
 			g.typedefs[f] = append(g.typedefs[f], td)
 			add(&Decl{TypeDef: td})
@@ -562,6 +568,13 @@ func (g *gen) allExceptions() []*Struct {
 
 // fieldType draws a type usable for a field / argument / return value.
 func (g *gen) fieldType(depth int, later []*Struct) *Type {
+	if g.cfg.ShadowNames && g.rng.Intn(3) == 0 {
+		// typedef-heavy: prefer this file's own aliases
+		if td, f := g.pickTypeDef(func(t *Type, tf *File) bool { return tf == g.file }); td != nil {
+			g.feat("typedef_field")
+			return T(g.ref(f, td.Name))
+		}
+	}
 	for {
 		if g.cfg.I8Type && g.rng.Intn(5) == 0 {
 			g.feat("i8")
@@ -672,7 +685,7 @@ func (g *gen) genTypeDef() *TypeDef {
 	// the same unqualified name may mean something else in an included file
 	// (each file is its own name space): reuse a visible file's typedef name
 	// for a different aliased type now and then
-	if len(saved) > 0 && g.rng.Intn(3) == 0 {
+	if len(saved) > 0 && (g.cfg.ShadowNames || g.rng.Intn(3) == 0) {
 		f := saved[g.rng.Intn(len(saved))]
 		if tds := g.typedefs[f]; len(tds) > 0 {
 			other := tds[g.rng.Intn(len(tds))]
